@@ -25,6 +25,8 @@ import PycsepVerif.Drive.Text
 import PycsepVerif.Drive.SrcSM
 import PycsepVerif.Drive.C15b
 import PycsepVerif.Drive.C18c
+import PycsepVerif.Drive.C03b
+import PycsepVerif.Drive.C17b
 -- REGISTER-IMPORT (one `import PycsepVerif.Drive.Cxx` line per property, above this line)
 
 /-- the per-property handlers, tried in order; each returns `none` for ops it does not know -/
@@ -56,6 +58,8 @@ def handlers : List (List String → Option String) := [
   , Drive.SrcSM.handle
   , Drive.C15b.handle
   , Drive.C18c.handle
+  , Drive.C03b.handle
+  , Drive.C17b.handle
   -- REGISTER-HANDLER (`, Drive.Cxx.handle` lines above this line)
 ]
 
